@@ -19,7 +19,8 @@ import (
 )
 
 type c18Fake struct {
-	es []c06Entry
+	es         []c06Entry
+	bundleRoot bool // the root version (package r) bundles a package z 9.0.0
 }
 
 func (f *c18Fake) GetPackage(ctx context.Context, in *pb.GetPackageRequest, opts ...grpc.CallOption) (*pb.Package, error) {
@@ -74,7 +75,12 @@ func (f *c18Fake) GetRequirements(ctx context.Context, in *pb.GetRequirementsReq
 				deps.Dependencies = append(deps.Dependencies, d)
 			}
 		}
-		return &pb.Requirements{Npm: &pb.Requirements_NPM{Dependencies: deps}}, nil
+		reqs := &pb.Requirements_NPM{Dependencies: deps}
+		if f.bundleRoot && e.v.Name == "r" {
+			reqs.Bundled = append(reqs.Bundled, &pb.Requirements_NPM_Bundle{Path: "node_modules/z", Name: "z", Version: "9.0.0",
+				Dependencies: &pb.Requirements_NPM_Dependencies{}})
+		}
+		return &pb.Requirements{Npm: reqs}, nil
 	}
 	panic("verif: stand-in service asked for the requirements of an unknown version")
 }
@@ -113,4 +119,17 @@ func VerifC18EndToEnd() {
 	}
 	vCover(len(g1.Nodes) > 2, "a graph with several nodes through both clients")
 	c05SameGraph(c05Clone(g1), c05Clone(g2), "resolving through the API-backed client and through the in-memory client")
+}
+
+// VerifC18Shared: the race clause of C18, decided as the shared-state discipline (see c05shared.go): one npm
+// Resolve through an API-backed client that other goroutines share (optionally warmed up by an earlier
+// resolution) writes the client's state only under its lock and reads what is written under a lock. The root
+// version bundles a package, so that the client's table of bundled versions is written. The native replay runs
+// eight concurrent resolutions on one client under the race detector.
+func VerifC18Shared() {
+	es, root := c06Entries2()
+	f := &c18Fake{es: es, bundleRoot: true}
+	api := resolve.NewAPIClient(f)
+	alt := es[1+vParam("alt")%(len(es)-1)].v.VersionKey
+	c05Shared(api, root, alt, NewResolver, false)
 }
